@@ -40,11 +40,19 @@ def member(subject, values, truth=True):
     def pred(k, t):
         if k[0] != "in" or k[1] != subject or t != truth:
             return False
-        try:
-            return set(ast.literal_eval(k[2])) == want
-        except Exception:
-            return False
+        return literal_set(k[2]) == want
     return pred
+
+
+def literal_set(text):
+    """The set of values of a container display, also through frozenset(..) / set(..) / tuple(..) / list(..)."""
+    try:
+        e = ast.parse(text, mode="eval").body
+        while isinstance(e, ast.Call) and isinstance(e.func, ast.Name) and e.func.id in ("frozenset", "set", "tuple", "list") and len(e.args) == 1:
+            e = e.args[0]
+        return set(ast.literal_eval(e))
+    except Exception:
+        return None
 
 
 def isinstance_of(subject, truth=True, types=None):
